@@ -24,6 +24,11 @@ import (
 
 var decodeSideRe = regexp.MustCompile(`(Inverse|inverse|Decod|decod|Read|read|Hash|hash|^New|^new|GetName|GetType|getByteFunction|writeHeader|Dispose|^init$|Squash|Stretch|Log2|update|predict|Update|Get$|get$)`)
 
+// notFormatRe: constants referenced from decode-side code that do not take part in
+// the stream format (error and event codes, buffer sizes, sort stack sizes):
+// changing them is not a format change, they are not pinned.
+var notFormatRe = regexp.MustCompile(`^(kanzi\.ERR_|kanzi\.EVT_|io\._STREAM_DEFAULT_BUFFER_SIZE$|io\._EXTRA_BUFFER_SIZE$|io\._CANCEL_TASKS_ID$|transform\._SS_|transform\._TR_STACKSIZE$)`)
+
 type constPin struct {
 	Kind  string `json:"kind"` // const | table
 	Value string `json:"value"`
@@ -130,6 +135,11 @@ func pinConstsCmd() {
 		os.Exit(2)
 	}
 	cs := collectFormatConstants(ld)
+	for k := range cs {
+		if notFormatRe.MatchString(k) {
+			delete(cs, k)
+		}
+	}
 	b, _ := json.MarshalIndent(cs, "", " ")
 	os.WriteFile(constsFile(), b, 0o644)
 	fmt.Printf("pinned %d constants and tables in %s\n", len(cs), constsFile())
